@@ -98,6 +98,8 @@ struct Harness {
          auto& id = ident(n, 0);
          templates.push_back(unit.global_scope()->make_primary_template(id, i % 2 ? fa : fb));
       }
+      // redeclarations of some of them: a redeclared template is a different Template node (another argument for get_guide_name)
+      for (int i = 0; i < 3; ++i) templates.push_back(unit.global_scope()->make_primary_template(ident("Tpl" + std::to_string(i), 0), i % 2 ? fa : fb));
    }
 
    // the String operand of a String-taking overload: the Lexicon's own interned word, the equally spelled word of another
